@@ -754,7 +754,8 @@ def params(tier):
         terms = [(1, 1), (2, 3), (7, 5), (20, 10), (80, 24)]
         cells = [None, (1, 1), (2, 3), (8, 16), (9, 18)]
         ratios = [0.25, 0.4, 0.5, 1.0, 2.0]
-        frames = [(0, -2), (0, 0), (-3, -1), (5, 4), (1, 1), (200, 100)]
+        # fully relative, fully absolute and MIXED frames (each dimension is resolved on its own)
+        frames = [(0, -2), (0, 0), (-3, -1), (5, 4), (1, 1), (200, 100), (5, 0), (0, 4), (40, -2), (-3, 6)]
         ks = [1, 2, 3, 4, 5, 6]
         manuals = [(1, 1), (3, 7)]
         dyn_cells = [(8, 16), (2, 3)]
@@ -765,7 +766,7 @@ def params(tier):
         cells = [None, (1, 1), (2, 3), (8, 16), (9, 18), (10, 20), (7, 15), (5, 3), (16, 8), (1, 3)]
         ratios = [0.1, 0.25, 1 / 3, 0.4, 0.45, 0.5, 0.6, 0.75, 1.0, 1.5, 2.0, 3.0]
         frames = [(0, -2), (0, 0), (-3, -1), (5, 4), (1, 1), (200, 100), (-500, -500), (3, 0), (0, 7), (12, 12),
-                  (1, 30), (30, 1)]
+                  (5, 0), (0, 4), (40, -2), (-3, 6), (-1, 1), (1, -1), (1, 30), (30, 1)]
         ks = [1, 2, 3, 4, 5, 6, 7, 8, 9, 20, 100]
         manuals = [(1, 1), (3, 7), (500, 2)]
         dyn_cells = [(8, 16), (2, 3), (9, 18), (5, 3)]
